@@ -64,6 +64,17 @@ func VerifC08_Precedence() {
 			page = "---\n" + kn + ": FM\n---\n" + page
 		}
 	}
+	// the page may include a component whose own front-matter defines the
+	// same key: that value belongs to the component, the page's reads after
+	// the include still follow the page's sources
+	switch zzChoice("includesComponent", 3) {
+	case 1:
+		files["comp.vuego"] = "---\nk: COMP\nK: COMP\n---\n<s>c{{ k }}</s>"
+		page = strings.Replace(page, "<p ", `<template include="comp.vuego"></template><p `, 1)
+	case 2:
+		files["comp.vuego"] = "---\nk: COMP\nK: COMP\n---\n<s>c{{ k }}</s>"
+		page = strings.Replace(page, "<p ", `<template include="comp.vuego" z="1"></template><p `, 1)
+	}
 	files["page.vuego"] = page
 	if inData {
 		files["data/site.yml"] = kn + ": DATA\nd: D\n"
